@@ -539,4 +539,62 @@ theorem addGcdas_replicate {g : Notes} {d : Gcda} : ∀ (k : Nat) (r : State),
   obtain ⟨Δ, hΔ, e⟩ := gen k _ _ State.zero_Fits h
   exact ⟨Δ, hΔ, by simpa using e⟩
 
+/-! ### mismatching gcda files -/
+
+/-- a function record that does not match the notes: bad length, unknown identifier, or a line /
+cfg checksum that differs from the function's; or the end of the buffer inside a record -/
+def BadFnRec (g : Notes) : DRec → Prop
+  | .func len id ls cs =>
+    len ≠ 0 ∧ (len = 1 ∨ match identToFun g.funcs id with
+      | none => True
+      | some i => match g.funcs[i]? with
+        | none => True
+        | some f => ls ≠ f.lineChecksum ∨ cs ≠ f.cfgChecksum)
+  | .short => True
+  | _ => False
+
+/-- a gcda that must not be mixed in -/
+def Mismatch (g : Notes) (d : Gcda) : Prop :=
+  d.version ≠ g.version ∨ d.checksum ≠ g.checksum ∨ ∃ rec ∈ d.recs, BadFnRec g rec
+
+theorem recStep_bad {g : Notes} {cur : Option Nat} {rec : DRec} (hbad : BadFnRec g rec) :
+    (∃ k, recStep g cur rec = .fail k) ∨ recStep g cur rec = .bad := by
+  cases rec with
+  | func len id ls cs =>
+    obtain ⟨h0, hb⟩ := hbad
+    simp only [recStep, h0, if_false]
+    by_cases h1 : len = 1
+    · simp [h1]
+    · simp only [h1, if_false]
+      have hb := hb.resolve_left h1
+      cases hi : identToFun g.funcs id with
+      | none => simp
+      | some i =>
+        rw [hi] at hb; simp only at hb ⊢
+        cases hf : g.funcs[i]? with
+        | none => simp
+        | some f => rw [hf] at hb; simp only at hb ⊢; simp [hb]
+  | arcs len vs => exact absurd hbad (by simp [BadFnRec])
+  | other => exact absurd hbad (by simp [BadFnRec])
+  | short => simp [recStep]
+
+theorem goRecs_ok_no_bad (g : Notes) : ∀ (recs : List DRec) (cur : Option Nat) (st r : State),
+    goRecs g cur recs st = ok r → ∀ rec ∈ recs, ¬ BadFnRec g rec := by
+  intro recs
+  induction recs with
+  | nil => intro cur st r _ rec hrec; cases hrec
+  | cons d rest ih =>
+    intro cur st r h rec hrec
+    rw [goRecs_cons] at h
+    rcases List.mem_cons.1 hrec with e | hmem
+    · subst e
+      intro hbad
+      rcases recStep_bad (cur := cur) hbad with ⟨k, hk⟩ | hk <;> rw [hk] at h <;> cases h
+    · split at h
+      · exact ih _ _ _ h rec hmem
+      · obtain ⟨c, _, h2⟩ := bind_eq_ok.1 h
+        exact ih _ _ _ h2 rec hmem
+      · cases h
+      · cases h
+
 end Grcov.Gcno
